@@ -261,6 +261,24 @@ def weave_fn(item_text, fnpath, sections, origin_file, origin_line):
                 raise LostAnchor("%s: anchor pattern %r #%d not found" % (fnpath, pat, k))
             off = found + len(pat) if s.kind == "after" else found
             ins.append(Insertion(off, "\n" + s.body + "\n", (s.file, s.line)))
+        elif s.kind == "closurehead":
+            # the pattern is the text up to and including the `{` that opens a closure body, e.g. `foo(|ps| {`;
+            # the section body (return binder, requires/ensures) is woven before that brace
+            pat = s.args.get("pattern")
+            k = int(s.args["_pos"][0]) if s.args["_pos"] else 0
+            lo, hi = toks[body_open].start, toks[body_close].end
+            pos = lo
+            found = -1
+            for _ in range(k + 1):
+                found = item_text.find(pat, pos, hi)
+                if found < 0:
+                    break
+                pos = found + 1
+            if found < 0 or not pat.rstrip().endswith("{"):
+                if s.args.get("opt"):
+                    continue
+                raise LostAnchor("%s: closure head %r #%d not found" % (fnpath, pat, k))
+            ins.append(Insertion(found + len(pat.rstrip()) - 1, "\n" + s.body + "\n", (s.file, s.line)))
         elif s.kind == "closure":
             # the pattern is the complete text of a closure `|PARAMS| BODY`; the section body (return binder and
             # requires/ensures) is woven between the parameter list and the body, which gets braces if it has none
